@@ -792,6 +792,74 @@ __CPROVER_assigns(g_map_size, g_map_decl, g_reserved, g_od_calls, g_od_last, g_d
                   harness=H("  dim_max = (dimension_t)nondet_int(); g_od_calls = 0; g_d0_calls = 0; g_cp_calls = 0; g_as_calls = 0; g_cp_dirty = 0; g_order_bad = 0; g_map_size = nondet_ulong();", "compute_barcodes();"),
                   desc="compute_barcodes: dimension 0 first, then for dim = 1..dim_max: output_dim(dim), compute_pairs(dim) on a pivot map that is EMPTY at that moment (pivots of another dimension must never be visible: simplex indices are unique per dimension only), then assemble_columns_to_reduce(dim + 1) except after the last dimension"))
 
+def pairs_step_units(U):
+    """compute_pairs, one turn of the reduction loop of a column (the body of the inner `while (true)`): which of the four
+    cases applies and what it does.  Heaps, the pivot map, the coboundary workers and the apparent-pair test are ghost
+    stubs recording their arguments; the elimination factor is checked arithmetically (it cancels the pivot)."""
+    G = ND + """
+typedef float value_t; typedef signed char dimension_t; typedef unsigned long simplex_t; typedef unsigned int coefficient_t;
+typedef struct { bool has; value_t diam; simplex_t id; coefficient_t coef; } vp_opt;   /* std::optional<diameter_entry_t>, with its coefficient */
+typedef struct { bool found; coefficient_t coef; size_t index; } vp_find;
+coefficient_t modulus; value_t diameter; size_t index_column_to_reduce;
+vp_find g_find; simplex_t g_find_id; unsigned g_find_calls;
+coefficient_t g_inv; coefficient_t g_inv_arg; unsigned g_inv_calls;
+unsigned g_addcob_calls; size_t g_addcob_index; coefficient_t g_addcob_factor; dimension_t g_addcob_dim;
+vp_opt g_next_pivot; unsigned g_getpivot_calls;
+vp_opt g_zaf; simplex_t g_zaf_id; dimension_t g_zaf_dim; unsigned g_zaf_calls;
+unsigned g_addsimp_calls; simplex_t g_addsimp_id; coefficient_t g_addsimp_coef; dimension_t g_addsimp_dim;
+unsigned g_out_calls; value_t g_out_b, g_out_d; unsigned g_ins_calls; simplex_t g_ins_id; size_t g_ins_index; unsigned g_drain_calls; bool g_break;
+static vp_find map_find(simplex_t id) { g_find_calls++; g_find_id = id; return g_find; }
+static coefficient_t multiplicative_inverse(coefficient_t c) { g_inv_calls++; g_inv_arg = c; return g_inv; }
+static void add_cob_stub(size_t index, coefficient_t factor, dimension_t d) { g_addcob_calls++; g_addcob_index = index; g_addcob_factor = factor; g_addcob_dim = d; }
+static vp_opt get_pivot_stub(void) { g_getpivot_calls++; return g_next_pivot; }
+static vp_opt zaf_stub(vp_opt p, dimension_t d) { g_zaf_calls++; g_zaf_id = p.id; g_zaf_dim = d; return g_zaf; }
+static void add_simp_stub(vp_opt e, dimension_t d) { g_addsimp_calls++; g_addsimp_id = e.id; g_addsimp_coef = e.coef; g_addsimp_dim = d; }
+static void output_pair(value_t b, value_t d) { g_out_calls++; g_out_b = b; g_out_d = d; }
+static void map_insert(simplex_t id, size_t index) { g_ins_calls++; g_ins_id = id; g_ins_index = index; }
+static void drain_stub(void) { g_drain_calls++; }
+#define LISTED_PRIME(p) ((p) == 2 || (p) == 3 || (p) == 5 || (p) == 7 || (p) == 11 || (p) == 13 || (p) == 17 || (p) == 19 || (p) == 23 || (p) == 29 || (p) == 31)
+static bool zero_calls(void) { return g_find_calls == 0 && g_inv_calls == 0 && g_addcob_calls == 0 && g_getpivot_calls == 0 && g_zaf_calls == 0 && g_addsimp_calls == 0 && g_out_calls == 0 && g_ins_calls == 0 && g_drain_calls == 0 && !g_break; }
+"""
+    con = """
+__CPROVER_requires(zero_calls() && LISTED_PRIME(modulus) && diameter == diameter && dim >= 0 && dim < 100)
+__CPROVER_requires(!pivot->has || (pivot->coef >= 1 && pivot->coef < modulus && pivot->diam == pivot->diam))
+__CPROVER_requires(g_find.coef >= 1 && g_find.coef < modulus && g_inv >= 1 && g_inv < modulus && (g_find.coef * g_inv) % modulus == 1 && g_zaf.coef >= 1 && g_zaf.coef < modulus)
+__CPROVER_ensures(__CPROVER_old(pivot->has) || (g_break && g_out_calls == 1 && g_out_b == diameter && isinf(g_out_d) && g_out_d > 0 && g_find_calls == 0 && g_ins_calls == 0 && g_addcob_calls == 0 && g_addsimp_calls == 0))
+__CPROVER_ensures(!__CPROVER_old(pivot->has) || (g_find_calls == 1 && g_find_id == __CPROVER_old(pivot->id)))
+__CPROVER_ensures(!(__CPROVER_old(pivot->has) && g_find.found) || (!g_break && g_addcob_calls == 1 && g_addcob_index == g_find.index && g_addcob_dim == dim && g_inv_calls == 1 && g_inv_arg == g_find.coef && g_addcob_factor >= 1 && g_addcob_factor < modulus && (__CPROVER_old(pivot->coef) + g_addcob_factor * g_find.coef) % modulus == 0 && g_getpivot_calls == 1 && pivot->has == g_next_pivot.has && pivot->id == g_next_pivot.id && g_out_calls == 0 && g_ins_calls == 0 && g_zaf_calls == 0))
+__CPROVER_ensures(!(__CPROVER_old(pivot->has) && !g_find.found) || (g_zaf_calls == 1 && g_zaf_id == __CPROVER_old(pivot->id) && g_zaf_dim == dim + 1 && g_addcob_calls == 0))
+__CPROVER_ensures(!(__CPROVER_old(pivot->has) && !g_find.found && g_zaf.has) || (!g_break && g_addsimp_calls == 1 && g_addsimp_id == g_zaf.id && g_addsimp_coef == modulus - g_zaf.coef && g_addsimp_dim == dim && g_getpivot_calls == 1 && pivot->id == g_next_pivot.id && g_out_calls == 0 && g_ins_calls == 0))
+__CPROVER_ensures(!(__CPROVER_old(pivot->has) && !g_find.found && !g_zaf.has) || (g_break && g_out_calls == 1 && g_out_b == diameter && g_out_d == __CPROVER_old(pivot->diam) && g_ins_calls == 1 && g_ins_id == __CPROVER_old(pivot->id) && g_ins_index == index_column_to_reduce && g_drain_calls == 1 && g_addsimp_calls == 0))
+__CPROVER_assigns(*pivot, g_find_id, g_find_calls, g_inv_arg, g_inv_calls, g_addcob_calls, g_addcob_index, g_addcob_factor, g_addcob_dim, g_getpivot_calls, g_zaf_id, g_zaf_dim, g_zaf_calls, g_addsimp_calls, g_addsimp_id, g_addsimp_coef, g_addsimp_dim, g_out_calls, g_out_b, g_out_d, g_ins_calls, g_ins_id, g_ins_index, g_drain_calls, g_break)
+"""
+    fn = Fn(RP, r"void compute_pairs\(const std::vector<diameter_simplex_t>& columns_to_reduce,\s*entry_hash_map& pivot_column_index, const dimension_t dim, OutPair& output_pair\)", "pairs_step", con,
+            piece={"kind": "loop", "ordinal": 1, "sig": "void pairs_step(vp_opt* pivot, dimension_t dim)"},
+            subs=[(r"while \(true\) \{\s*std::optional<diameter_entry_t> (\w+) = pop_pivot\(working_reduction_column\);\s*if \(!\1\) break;\s*(?:GUDHI_assert|__CPROVER_assert)\([^;]*\);\s*reduction_matrix\.push_back\(\*\1\);\s*\}", "drain_stub();"),
+                  (r"\bbreak;", "{ g_break = true; return; }"),
+                  (r"if \(pivot\) \{", "if (pivot->has) {"),
+                  (r"auto (\w+) = pivot_column_index\.find\(get_entry\(\*pivot\)\);", r"vp_find \1 = map_find(pivot->id);"),
+                  (r"(\w+) != pivot_column_index\.end\(\)", r"\1.found"),
+                  (r"entry_t (\w+) = (\w+)->first;", r"coefficient_t \1 = \2.coef;"), (r"size_t (\w+) = (\w+)->second;", r"size_t \1 = \2.index;"),
+                  (r"filt\.get_coefficient\(\*pivot\)", "pivot->coef"), (r"filt\.get_coefficient\(other_pivot\)", "other_pivot"),
+                  (r"add_coboundary\(reduction_matrix, columns_to_reduce, (\w+),\s*(\w+), (\w+), working_reduction_column, working_coboundary\);", r"add_cob_stub(\1, \2, \3);"),
+                  (r"pivot = get_pivot\(working_coboundary\);", "*pivot = get_pivot_stub();"),
+                  (r"else if \(std::optional<diameter_entry_t> (\w+) = get_zero_apparent_facet\(\*pivot, ([^;]*)\); \1\) \{", r"else if (zaf_probe(pivot, \2)) { vp_opt \1 = vp_zaf_result;"),
+                  (r"filt\.set_coefficient\(\*(\w+), modulus - filt\.get_coefficient\(\*\1\)\);", r"\1.coef = modulus - \1.coef;"),
+                  (r"add_simplex_coboundary\(\*(\w+), (\w+), working_reduction_column, working_coboundary\);", r"add_simp_stub(\1, \2);"),
+                  (r"get_diameter\(\*pivot\)", "pivot->diam"),
+                  (r"pivot_column_index\.insert\(\{get_entry\(\*pivot\), (\w+)\}\);", r"map_insert(pivot->id, \1);"),
+                  (r"std::numeric_limits<value_t>::infinity\(\)", "INFINITY")],
+            prologue="vp_opt vp_zaf_result;\n#define zaf_probe(p, d) ((vp_zaf_result = zaf_stub(*(p), (d))).has)",
+            canary=(r"modulus - pivot->coef \*", "modulus - 1 + pivot->coef *"))
+    U.append(Unit("reduction.compute_pairs.step", "C11", [fn], enforce="pairs_step", globals_="#include <math.h>\n" + G, route="B",
+                  bound="moduli: the primes up to 31 (the cancellation clause multiplies and reduces); everything else symbolic",
+                  inputs=["in_p", "in_dim", "modulus", "g_find", "g_zaf"], replay=replay_by_native_search,
+                  harness=H("  vp_opt in_p; in_p.has = nondet_int() != 0; in_p.diam = nondet_float(); in_p.id = nondet_ulong(); in_p.coef = nondet_uint(); dimension_t in_dim = (dimension_t)nondet_int(); modulus = nondet_uint(); diameter = nondet_float(); index_column_to_reduce = nondet_ulong();\n"
+                            "  g_find.found = nondet_int() != 0; g_zaf.has = nondet_int() != 0; g_next_pivot.has = nondet_int() != 0;\n"
+                            "  g_find_calls = 0; g_inv_calls = 0; g_addcob_calls = 0; g_getpivot_calls = 0; g_zaf_calls = 0; g_addsimp_calls = 0; g_out_calls = 0; g_ins_calls = 0; g_drain_calls = 0; g_break = 0; vp_opt x_p = in_p;", "pairs_step(&x_p, in_dim);"),
+                  runs=[Run(backend="kissat", timeout=600)],
+                  desc="compute_pairs, one turn of the reduction of a column: no pivot -> the class is essential, (diameter, infinity) is streamed; pivot already owned by another column -> that column is added with the factor -c_pivot / c_other (checked: it cancels the pivot modulo the characteristic) and the new pivot is taken; pivot with a zero apparent facet -> that facet's coboundary is added with the negated coefficient; otherwise -> (diameter, diameter of the pivot) is streamed, the pivot is recorded for this column and the reduction column is stored"))
+
 def enumerator_units(U):
     """dense Simplex_coboundary_enumerator_::next(): filters the raw cofacets by the threshold.  next_raw (the
     enumeration itself) is a ghost stub that yields an arbitrary finite sequence of candidates."""
@@ -1057,6 +1125,7 @@ def units(tier):
     apparent_units(U)
     dim0_units(U)
     barcodes_units(U)
+    pairs_step_units(U)
     return U
 
 
